@@ -85,6 +85,27 @@ let () =
                  | None -> "rejected"
                  | Some l -> string_of_int (List.length l)) in
       Printf.printf "%s\t%s missing=%d\n" id res nmiss
+    | id :: "T" :: pnum :: sets :: keys :: _ ->
+      let fl = List.map bytes_of_hex (if sets = "" then [] else split_on ',' sets) in
+      let rec pairs = function a :: b :: r -> (a, b) :: pairs r | _ -> [] in
+      let store = apply_sets (pairs fl) [] in
+      let ks = List.map bytes_of_hex (split_on ',' keys) in
+      let out = (match mget_reply (n_of_dec pnum) ks store with
+                 | None -> "rejected"
+                 | Some vs -> String.concat "," (List.map (function None -> "-" | Some v -> hex_of_bytes v ^ ".") vs)) in
+      Printf.printf "%s\t%s\n" id out
+    | id :: "B" :: pnum :: keys :: _ ->
+      (* the last key is the only stored one *)
+      let ks = List.map bytes_of_hex (split_on ',' keys) in
+      let store = [List.nth ks (List.length ks - 1)] in
+      let n = n_of_dec pnum in
+      let pr = function None -> "err" | Some c -> dec_of_n c in
+      Printf.printf "%s\t%s %s\n" id (pr (merged_exists_lim max_batch_num n ks store)) (pr (merged_del_lim max_batch_num n ks store))
+    | id :: "N" :: desc :: _ ->
+      let outs = List.map (fun d -> match split_on '/' d with
+          | [ns; pid] -> hex_of_bytes (ns_desp (bytes_of_hex ns) (n_of_dec pid))
+          | _ -> "?") (split_on ',' desc) in
+      Printf.printf "%s\t%s\n" id (String.concat " " outs)
     | id :: "R" :: pnum :: missing :: key :: _ ->
       let k = bytes_of_hex key in
       let p = part_of (route_key k) (n_of_dec pnum) in
